@@ -522,8 +522,31 @@ func TestC06_InProcess(t *testing.T) {
 				how = "in-process, body present but length declared 0"
 			}
 		}
+		// a spool directory that cannot be used (missing, read-only, full): a body that has to go
+		// to disk cannot be kept; the request is then refused without the handler seeing any of
+		// it - or served exactly as always, but never served with part of the body
+		spoolBroken := rapid.IntRange(0, 9).Draw(t, "spoolDirectoryUnusable") == 0
+		if spoolBroken {
+			old, had := os.LookupEnv("TMPDIR")
+			os.Setenv("TMPDIR", "/nonexistent-verif-spool/"+fmt.Sprint(len(c.body)))
+			defer func() {
+				if had {
+					os.Setenv("TMPDIR", old)
+				} else {
+					os.Unsetenv("TMPDIR")
+				}
+			}()
+			how += ", spool directory unusable"
+		}
 		rec := httptest.NewRecorder()
 		h.ServeHTTP(rec, req)
+		if spoolBroken && res.attempts == 0 {
+			if rec.Code < 500 {
+				t.Fatalf("%s: the handler was not invoked and the client got status %d (want an error status)", how, rec.Code)
+			}
+			vstat.Case(fmt.Sprintf("spool|%s|%d|%d|%v", c.method, len(c.body), c.thr, c.chunked), int64(len(c.body)) > c.thr, []string{"spool-directory-unusable:request-refused"}, nil)
+			return
+		}
 		verdict(t, c, res, rec.Code, how)
 	})
 }
